@@ -1,6 +1,7 @@
 package lifecycle
 
 import (
+	"errors"
 	"fmt"
 	"os"
 	"sort"
@@ -68,6 +69,10 @@ func checkScale(c ScaleCase) pbt.Verdict {
 	}
 	s := &sc.Scenario{Procs: scaleProcs(c.Web, c.DB), FinishRounds: 3}
 	e, err := sc.Begin(s)
+	if errors.Is(err, sc.ErrLeftover) {
+		v.Skip = true
+		return v
+	}
 	if err != nil {
 		return fail("load failed: %v", err)
 	}
